@@ -11,6 +11,7 @@ bifs = ["abs","after","all","any","append","before","ceiling","coincides","conca
 args = [
  ['null'], ['0'], ['1'], ['-', '1'], ['"a"'], ['""'], ['[', ']'], ['[', '1', ',', 'null', ']'], ['[', 'null', ',', 'null', ']'], ['true'],
  ['10', '**', '6144'], ['0.5'],
+ ['"' + 'z' + U + '00F3' + U + '0142w' + '"'], ['"' + U + '00F3' + '"'], ['"' + UU + '01F600' + 'a' + UU + '01F600' + '"'], ['"' + UU + '01F600' + '"'],
  ['-', '5'], ['4294967297'], ['18446744073709551617'], ['-', '10', '**', '6144'], ['10', '**', '-', '6176'], ['1', '/', '3'],
  ['[', '1', ',', '2', ',', '3', ']'], ['[', '"b"', ',', '"a"', ']'], ['[', '[', ']', ',', '[', '1', ']', ']'], ['{', 'k', ':', '1', '}'], ['{', '}'],
  ['"(a"'], ['"[a-"'], ['"x{99999}"'], ['"' + BS + BS + '"'], ['"' + U + 'D83D' + U + 'DE00' + '"'],
@@ -18,7 +19,7 @@ args = [
  ['@', '"P999999999999999999D"'], ['@', '"-P999999999999999999Y"'], ['@', '"PT0.000000001S"'], ['@', '"23:59:59.999999999+14:59:59"'], ['@', '"2021-01-01"'],
  ['[', '1', '..', '2', ']'], ['(', '"a"', '..', '"b"', ')'], ['function', '(', 'x', ')', 'x'], ['biglist'], ['bigtext'],
 ]
-quick_args = 12
+quick_args = 16
 special = [
  # temporal arithmetic and properties at extremes and switch-over readings
  ['date and time', '(', '"2021-03-28T02:30:00@Europe/Paris"', ')', '.', 'time offset'],
@@ -91,7 +92,7 @@ out.append('Bifs == {' + ', '.join(tla_str(b) for b in bifs) + '}\n')
 out.append('ArgPool == <<' + ',\n            '.join(seq(a) for a in args) + '>>\n')
 out.append('QuickArgs == %d\n' % quick_args)
 out.append('''Args1 == {ArgPool[i] : i \\in 1..(IF Deep THEN Len(ArgPool) ELSE QuickArgs)}
-Args2 == {ArgPool[i] : i \\in 1..(IF Deep THEN 16 ELSE 8)}
+Args2 == {ArgPool[i] : i \\in (1..(IF Deep THEN 16 ELSE 8)) \\cup {13, 14, 16}}
 Args3 == {ArgPool[i] : i \\in 1..(IF Deep THEN 6 ELSE 4)}
 BifDocs == {<<f, "(", ")">> : f \\in Bifs}
            \\cup {<<f, "(">> \\o a \\o <<")">> : f \\in Bifs, a \\in Args1}
